@@ -93,16 +93,20 @@ struct array {
 
         owning_data_t & operator=(const owning_data_t & o)
         {
-            m_size = o.m_size;
-            m_ptr = std::make_unique<vector_t[]>(m_size);
+            if (this != &o) {
+                m_size = o.m_size;
+                m_ptr = std::make_unique<vector_t[]>(m_size);
 
-            assert(m_size == 0 || m_ptr);
+                assert(m_size == 0 || m_ptr);
 
-            if (o.m_ptr && m_size > 0) {
-                std::memcpy(
-                    m_ptr.get(), o.m_ptr.get(), m_size * sizeof(vector_t)
-                );
+                if (o.m_ptr && m_size > 0) {
+                    std::memcpy(
+                        m_ptr.get(), o.m_ptr.get(), m_size * sizeof(vector_t)
+                    );
+                }
             }
+
+            return *this;
         }
 
         configuration_t get_configuration() const
